@@ -113,6 +113,17 @@ func randomCase(r *prng.R, id string) proto.Case {
 		switch k := r.Intn(100); {
 		case malformed && k < 10:
 			g.ops = append(g.ops, prng.Pick(r, junk))
+		case k < 8:
+			// a reload lands while this (mostly new) transaction is being anchored
+			x := r.Intn(4)
+			if r.Chance(60) {
+				g.fresh++
+				x = 100 + g.fresh
+			}
+			d := nextLabel(r, g.cur, g.dataMax)
+			g.marks = append(g.marks, g.now)
+			g.ops = append(g.ops, fmt.Sprintf("lookupu x=%d d=%d", x, d))
+			g.cur = d
 		case k < 42:
 			g.lookup(r)
 		case k < 62:
@@ -138,7 +149,11 @@ func directedCase(r *prng.R, id string) proto.Case {
 	if r.Bool() {
 		g.ops = append(g.ops, "lookup x=9", fmt.Sprintf("advance d=%d", prng.Pick(r, pre)))
 	}
-	g.ops = append(g.ops, "lookup x=0")
+	if r.Chance(25) {
+		g.ops = append(g.ops, fmt.Sprintf("lookupu x=0 d=%d", r.Range(1, 3)*prng.Pick(r, []int{1, 10})))
+	} else {
+		g.ops = append(g.ops, "lookup x=0")
+	}
 	gap := prng.Pick(r, []int64{0, 1, tickNs, 12_000_000_000})
 	g.ops = append(g.ops, fmt.Sprintf("advance d=%d", gap), fmt.Sprintf("update d=%d ok=1", r.Range(1, 3)*prng.Pick(r, []int{1, 1, 10, 100})))
 	if r.Bool() {
@@ -210,6 +225,9 @@ func gen(r *prng.R, f proto.Flags, emit func(proto.Case)) {
 			}
 		}
 		rec6(nil)
+		// ... and every sequence of length 1..4 with reloads landing while a transaction is being anchored
+		alpha = []string{"lookupu x=0 d=1", "lookupu x=1 d=10", "lookup x=0", "update d=2 ok=1", fmt.Sprintf("advance d=%d", ttlNs)}
+		rec(nil, 4)
 	}
 	// level 2 (glue) cases are executed by the framework's Exec directly (one child process, sequential)
 	gn := 500
